@@ -418,7 +418,33 @@ def run_check(prop, tier, seed, runs=None, budget=None, workers=None, start=0, q
     idx, kind, detail, finding = unlisted[0]
     print(f"violating runs: {len(unlisted)} (first index {idx}: {kind}: {detail[:300]})")
     sc = core.generate(mod, seed, idx, tier)
-    path, doc = minimise_and_write(mod, prop, seed, tier, idx, sc)
+    path = doc = None
+    for cand in unlisted[:8]:       # a violating run that also fails when re-executed here (the usual case: the first one)
+        try:
+            sc = core.generate(mod, seed, cand[0], tier)
+            path, doc = minimise_and_write(mod, prop, seed, tier, cand[0], sc)
+            idx, kind, detail, finding = cand
+            break
+        except HarnessError:
+            continue
+    if doc is None:
+        # None of the violating runs fails when executed again in this process: what the changed code does depends on something
+        # no simulator can own (memory addresses / id() reuse, OS entropy ...). The violations were observed - they are reported,
+        # with the un-minimised scenario and the recorded verdict as the replay file, and the note that replay is best effort.
+        idx, kind, detail, finding = unlisted[0]
+        sc = core.generate(mod, seed, idx, tier)
+        path = replay_path(prop, seed, idx)
+        with open(path, "w") as f:
+            json.dump({"property": prop, "verif_seed": seed, "run_index": idx, "tier": tier, "scenario_original": sc,
+                       "scenario_min": sc, "violation": {"kind": kind, "detail": detail, "finding": finding, "seq": None},
+                       "violating_runs": len(unlisted), "code_fingerprint": core.code_fingerprint(),
+                       "note": "observed in the batch (%d runs) but not when re-executed: the code under test is nondeterministic "
+                               "(e.g. it depends on object addresses); replay is best effort" % len(unlisted),
+                       "replay_cmd": f"./check {prop} --replay {path}"}, f, indent=1, sort_keys=True, default=core._default)
+        print("  note: the violating runs do not fail when re-executed - the code under test is nondeterministic; replay is best effort")
+        print(f"  detail: {detail[:500]}")
+        print(f"VIOLATION property={prop} replay={path}")
+        return 1
     ok, log = verify_replay_fresh(prop, path)
     if not ok:
         # The violation was observed in the batch and again while minimising, but not in the fresh interpreter: the code under
